@@ -73,43 +73,30 @@ theorem rawPass_blanks (blanks : List Bytes) (X : Bytes) (hb : blanks.all padOK 
       trimSpace_allWs _ (allWs_append (padOK_allWs hb.1) allWs_LF)]
     exact ih hb.2
 
-theorem natToDec_rev_edge (n : Nat) : spWidthRev (natToDec n).reverse = 0 := by
-  have ⟨h1, h2, _⟩ := natToDec_spec n
-  cases hr : (natToDec n).reverse with
-  | nil => simp at hr; exact absurd hr h1
-  | cons x r =>
-    have hx : x ∈ natToDec n := by
-      have : x ∈ (natToDec n).reverse := by rw [hr]; simp
-      simpa using this
-    have hp := isDigit_props (h2 x hx)
-    exact spWidthRev_ascii x r hp.1 hp.2.1
-
 theorem content_raw_frame (t fr : Bytes) (l : ItemLay) :
-    content .raw (.frame t fr) l = natToDec fr.length ++ tagPart t := by
+    content .raw (.frame t fr) l = sizeText l fr.length ++ tagPart t := by
   simp [content, tagPart]
 
-theorem frameContent_props (n : Nat) (t : Bytes) (ht : tagOK t = true) :
-    let c := natToDec n ++ tagPart t
+theorem frameContent_props (sz : Bytes) (n : Nat) (t : Bytes) (hs : SizeTok sz n) (ht : tagOK t = true) :
+    let c := sz ++ tagPart t
     LF ∉ c ∧ spWidth c = 0 ∧ spWidthRev c.reverse = 0 ∧ ∃ x r, c = x :: r := by
   intro c
-  obtain ⟨x, r, hx, hdig⟩ := natToDec_head n
+  obtain ⟨x, r, hx, hx1, hx2, _⟩ := hs.head
   obtain ⟨htLF, htrev⟩ := tagOK_props ht
-  have hp := isDigit_props hdig
-  refine ⟨?_, ?_, rev_edge_tagPart _ t (natToDec_rev_edge n) htrev, x, r ++ tagPart t, by simp [c, hx]⟩
+  refine ⟨?_, ?_, rev_edge_tagPart _ t hs.revEdge htrev, x, r ++ tagPart t, by simp [c, hx]⟩
   · simp only [c, List.mem_append, not_or]
-    exact ⟨natToDec_noLF n, tagPart_noLF htLF⟩
+    exact ⟨hs.noLF, tagPart_noLF htLF⟩
   · simp only [c, hx, List.cons_append]
-    exact spWidth_ascii x _ hp.1 hp.2.1
+    exact spWidth_ascii x _ hx1 hx2
 
-theorem rawBlock_frame (t fr X : Bytes) (ht : tagOK t = true) (hne : fr ≠ []) (hn : sizeOK fr.length = true) :
-    rawBlock (natToDec fr.length ++ tagPart t) (fr ++ X) =
+theorem rawBlock_frame (sz t fr X : Bytes) (hs : SizeTok sz fr.length) (ht : tagOK t = true) (hne : fr ≠ []) :
+    rawBlock (sz ++ tagPart t) (fr ++ X) =
       ({ frame := fr, tag := t } :: (rawPass X).1, (rawPass X).2) := by
-  obtain ⟨_, _, _, x, r, hxr⟩ := frameContent_props fr.length t ht
-  have hcut := cut_tagPart (natToDec fr.length) t (natToDec_noSP _)
-  simp only [sizeOK, decide_eq_true_eq] at hn
-  have hd : rawDecodeHeader (natToDec fr.length ++ tagPart t) = some ((fr.length : Int), t) := by
+  obtain ⟨_, _, _, x, r, hxr⟩ := frameContent_props sz fr.length t hs ht
+  have hcut := cut_tagPart sz t hs.noSP
+  have hd : rawDecodeHeader (sz ++ tagPart t) = some ((fr.length : Int), t) := by
     unfold rawDecodeHeader
-    simp only [hcut.1, hcut.2, atoi_natToDec _ hn]
+    simp only [hcut.1, hcut.2, hs.val]
   rw [hxr] at hd ⊢
   unfold rawBlock
   simp only [hd]
@@ -141,8 +128,9 @@ theorem rawPass_renderItems (fnl : Bool) (trail : Bytes) (htrail : padOK trail =
       obtain ⟨⟨ht, hne⟩, hn⟩ := hit
       simp only [itemLayOK, Bool.and_eq_true] at hl
       obtain ⟨⟨⟨⟨⟨⟨hpre, hpost⟩, _⟩, _⟩, _⟩, _⟩, hlb⟩ := hl
-      obtain ⟨hLF, hf, hr, _⟩ := frameContent_props fr.length t ht
-      have hline : LF ∉ (per.headD ({} : ItemLay)).pre ++ (natToDec fr.length ++ tagPart t) ++ (per.headD ({} : ItemLay)).post := by
+      have hs := sizeText_tok (per.headD ({} : ItemLay)) fr.length hn
+      obtain ⟨hLF, hf, hr, _⟩ := frameContent_props _ fr.length t hs ht
+      have hline : LF ∉ (per.headD ({} : ItemLay)).pre ++ (sizeText (per.headD ({} : ItemLay)) fr.length ++ tagPart t) ++ (per.headD ({} : ItemLay)).post := by
         simp only [List.mem_append, not_or] at hLF ⊢
         exact ⟨⟨padOK_noLF hpre, hLF.1, hLF.2⟩, padOK_noLF hpost⟩
       have htrim := trimSpace_pad _ _ ((per.headD ({} : ItemLay)).post ++ [LF]) (padOK_allWs hpre)
@@ -153,12 +141,12 @@ theorem rawPass_renderItems (fnl : Bool) (trail : Bytes) (htrail : padOK trail =
       | true =>
         simp only [if_true]
         rw [rawPass_line _ _ hline, List.append_assoc _ _ [LF], htrim, List.append_assoc,
-          rawBlock_frame t fr _ ht hne hn, rawPass_blanks _ _ hlb, rawPass_lastline trail (padOK_noLF htrail) (padOK_allWs htrail)]
+          rawBlock_frame _ t fr _ hs ht hne, rawPass_blanks _ _ hlb, rawPass_lastline trail (padOK_noLF htrail) (padOK_allWs htrail)]
         rfl
       | false =>
         simp only [Bool.false_eq_true, if_false]
         rw [rawPass_line _ _ hline, List.append_assoc _ _ [LF], htrim]
-        have hb := rawBlock_frame t fr [] ht hne hn
+        have hb := rawBlock_frame _ t fr [] hs ht hne
         rw [List.append_nil] at hb
         rw [hb, rawPass_nil]
         rfl
@@ -183,15 +171,16 @@ theorem rawPass_renderItems (fnl : Bool) (trail : Bytes) (htrail : padOK trail =
       obtain ⟨⟨ht, hne⟩, hn⟩ := hit
       simp only [itemLayOK, Bool.and_eq_true] at hl
       obtain ⟨⟨⟨⟨⟨⟨hpre, hpost⟩, _⟩, _⟩, _⟩, _⟩, hlb⟩ := hl
-      obtain ⟨hLF, hf, hr, _⟩ := frameContent_props fr.length t ht
-      have hline : LF ∉ (per.headD ({} : ItemLay)).pre ++ (natToDec fr.length ++ tagPart t) ++ (per.headD ({} : ItemLay)).post := by
+      have hs := sizeText_tok (per.headD ({} : ItemLay)) fr.length hn
+      obtain ⟨hLF, hf, hr, _⟩ := frameContent_props _ fr.length t hs ht
+      have hline : LF ∉ (per.headD ({} : ItemLay)).pre ++ (sizeText (per.headD ({} : ItemLay)) fr.length ++ tagPart t) ++ (per.headD ({} : ItemLay)).post := by
         simp only [List.mem_append, not_or] at hLF ⊢
         exact ⟨⟨padOK_noLF hpre, hLF.1, hLF.2⟩, padOK_noLF hpost⟩
       have htrim := trimSpace_pad _ _ ((per.headD ({} : ItemLay)).post ++ [LF]) (padOK_allWs hpre)
         (allWs_append (padOK_allWs hpost) allWs_LF) hf hr
       simp only [renderItems, content_raw_frame, payload]
       rw [rawPass_line _ _ hline, List.append_assoc _ _ [LF], htrim, List.append_assoc,
-        rawBlock_frame t fr _ ht hne hn, rawPass_blanks _ _ hlb,
+        rawBlock_frame _ t fr _ hs ht hne, rawPass_blanks _ _ hlb,
         rawPass_renderItems fnl trail htrail (it2 :: rest) per.tail hi' hp']
       rfl
 
